@@ -23,6 +23,12 @@ def spec_decision(rules, default, name, roles, depth=0):
             return True
         if text == '!':
             return False
+        if text.startswith('not '):
+            v = ev(text[4:], depth)
+            return None if v is None else not v
+        if ' or ' in text:
+            vs = [ev(t, depth) for t in text.split(' or ')]
+            return None if None in vs else any(vs)
         if text.startswith('role:'):
             return text[5:] in roles
         if text.startswith('rule:'):
@@ -47,7 +53,9 @@ def run(run, binfo):
     cases, specs = [], []
     names = NAMES if tier == 'quick' else NAMES + ['c']
     defaults = [('none',), ('name', 'default'), ('name', 'nodefault'), ('name', 'a'),
-                ('check', 'role:x'), ('check', '!'), ('dict',), ('conf', 'default'), ('conf', 'b')]
+                ('check', 'role:x'), ('check', '!'), ('dict',), ('conf', 'default'), ('conf', 'b'),
+                # a default given as a check object may be any check: a constant, a negation, a disjunction
+                ('check', '@'), ('check', 'not role:x'), ('check', 'role:x or role:y')]
     queried = names + ['zz']
     # all rule sets: each name absent or defined with one of the bodies
     opts = [None] + BODIES
@@ -66,6 +74,9 @@ def run(run, binfo):
                     c['carrier_default'] = 'a' if (len(cases) // 4) % 2 else 'b'
                     if c['carrier'] == 'rules_same' and (len(cases) // 4) % 2:
                         c['prehistory'] = {n: FLIP[b] for n, b in rules.items()}
+                    if len(cases) % 5 == 2:
+                        # no policy file at all: the rules come from a policy directory only
+                        c['from_dir'] = True
                     # deny is False, or the not-authorized exception when the caller asked for one
                     c['do_raise'] = (len(cases) // 3) % 2 == 1
                     cases.append(c)
@@ -96,7 +107,7 @@ def run(run, binfo):
                       {'kind': 'broken-obligation', 'obligation': 'correspondence suite S4 (enforce)',
                        'input': describe(c), 'model': m, 'observed': i, 'count': len(bad_corr)})
     run.rule = ('complete table: every rule set over %r with bodies %r (or absent) x %d default-rule configurations '
-                '(unset, defined/undefined name, check object, dict, via policy_default_rule option) x queried names x '
+                '(unset, defined/undefined name, check objects of several classes, dict, via policy_default_rule option; rules given by set_rules or loaded from a policy directory with no policy file) x queried names x '
                 'role subsets x do_raise, half of the Rules-carried sets written in place over earlier opposite definitions after an undefined name was enforced; model vs Enforcer.enforce and an independent reading of the statement; non-trivial = '
                 'distinct (rule set, default, queried name) with the name undefined' % (names, BODIES, len(defaults)))
     run.exhaustive = tier == 'thorough'
